@@ -2,7 +2,7 @@
    every source tree, parent tree, index content and option set whenever the change-detection inputs
    are truthful; the finder pairs entries by name; the skip rule. *)
 From Restic Require Import Base.Prelude Model.C40m.
-From Coq Require Import Sorting.Sorted.
+From Coq Require Import Sorting.Sorted ZifyBool ZifyNat ZifyN.
 Import C40m.
 Open Scope N_scope.
 
@@ -210,6 +210,68 @@ Proof.
       rewrite E in R. exact (proj1 R). }
   rewrite (IH cur' Hc Hn'). apply map_ext_in. intros n' Hin.
   rewrite Forall_forall in Hall. pose proof (finder_rest cur n n' Hs (Hall n' Hin)) as R. rewrite E in R. exact (proj2 R).
+Qed.
+
+(* ---- parent selection ---- *)
+Lemma latest_mono snaps paths : forall i0 t0,
+  exists i t, latest snaps paths (Some (i0, t0)) = Some (i, t) /\ t0 <= t.
+Proof.
+  induction snaps as [|[[j ps] t'] r IH]; intros i0 t0; cbn [latest].
+  - exists i0, t0. split; [reflexivity | lia].
+  - destruct (t' <? t0) eqn:E; [apply IH|].
+    destruct (subset paths ps); [|apply IH].
+    destruct (IH j t') as (i & t & H & Hle). exists i, t. split; [exact H|]. apply N.ltb_ge in E. lia.
+Qed.
+
+(* the selected snapshot contains all requested paths ... *)
+Lemma latest_sound snaps paths : forall best i t, latest snaps paths best = Some (i, t) ->
+  best = Some (i, t) \/ exists ps, In (i, ps, t) snaps /\ subset paths ps = true.
+Proof.
+  induction snaps as [|[[j ps] t'] r IH]; intros best i t H; cbn [latest] in H; [left; exact H|].
+  destruct (match best with Some (_, bt) => t' <? bt | None => false end).
+  - destruct (IH _ _ _ H) as [E | (ps' & Hin & Hs)]; [left; exact E | right; exists ps'; split; [right; exact Hin | exact Hs]].
+  - destruct (subset paths ps) eqn:S.
+    + destruct (IH _ _ _ H) as [E | (ps' & Hin & Hs)].
+      * inversion E; subst. right. exists ps. split; [left; reflexivity | exact S].
+      * right. exists ps'. split; [right; exact Hin | exact Hs].
+    + destruct (IH _ _ _ H) as [E | (ps' & Hin & Hs)]; [left; exact E | right; exists ps'; split; [right; exact Hin | exact Hs]].
+Qed.
+
+(* ... and no snapshot containing them is newer *)
+Lemma latest_max snaps paths : forall best j ps t', In (j, ps, t') snaps -> subset paths ps = true ->
+  exists i t, latest snaps paths best = Some (i, t) /\ t' <= t.
+Proof.
+  induction snaps as [|[[k ps0] t0] r IH]; intros best j ps t' Hin Hs; [destruct Hin|].
+  cbn [latest]. destruct Hin as [E | Hin].
+  - inversion E; subst. rewrite Hs.
+    destruct best as [[bi bt]|].
+    + destruct (t' <? bt) eqn:L.
+      * destruct (latest_mono r paths bi bt) as (i & t & H & Hle). exists i, t. split; [exact H|].
+        apply N.ltb_lt in L. lia.
+      * apply latest_mono.
+    + apply latest_mono.
+  - destruct (match best with Some (_, bt) => t0 <? bt | None => false end); [eapply IH; eassumption|].
+    destruct (subset paths ps0); eapply IH; eassumption.
+Qed.
+
+Lemma select_parent_spec snaps paths force expl :
+  (force = true -> select_parent snaps paths force expl = None)
+  /\ (force = false -> forall i, expl = Some i -> select_parent snaps paths force expl = Some i)
+  /\ (force = false -> expl = None -> forall i, select_parent snaps paths force expl = Some i ->
+        exists ps t, In (i, ps, t) snaps /\ subset paths ps = true
+          /\ forall j ps' t', In (j, ps', t') snaps -> subset paths ps' = true -> t' <= t)
+  /\ (force = false -> expl = None -> select_parent snaps paths force expl = None ->
+        forall j ps t, In (j, ps, t) snaps -> subset paths ps = false).
+Proof.
+  unfold select_parent. repeat split.
+  - intros ->. reflexivity.
+  - intros -> i ->. reflexivity.
+  - intros -> -> i H. destruct (latest snaps paths None) as [[i' t]|] eqn:L; cbn [option_map fst] in H; [|discriminate].
+    inversion H; subst i'. destruct (latest_sound _ _ _ _ _ L) as [E | (ps & Hin & Hs)]; [discriminate|].
+    exists ps, t. repeat split; try assumption. intros j ps' t' Hin' Hs'.
+    destruct (latest_max snaps paths None j ps' t' Hin' Hs') as (i2 & t2 & L2 & Hle). rewrite L in L2. inversion L2; subst. exact Hle.
+  - intros -> -> H j ps t Hin. destruct (subset paths ps) eqn:S; [|reflexivity].
+    destruct (latest_max snaps paths None j ps t Hin S) as (i2 & t2 & L2 & _). rewrite L2 in H. discriminate.
 Qed.
 
 (* ---- skip-if-unchanged ---- *)
